@@ -79,7 +79,7 @@ def vectors(chk, wd, binary):
             i = int(inflight)
             chk.violation({"kind": "panic", "vector": rows[i].get("k"), "what": "library panicked on a conforming input",
                            "input": rows[i], "trace": txt[-1500:]})
-            return
+            return gen
         raise vlib.Inconclusive("C10 vector harness failed (rc %s, in flight %s): %s" % (rc, inflight, txt[-2500:]))
     summ = res[-1]
     if summ["vectors"] != len(rows) or summ["evaluations"] < len(rows):
@@ -103,6 +103,55 @@ def vectors(chk, wd, binary):
     r0 = next(r for r in rows if r.get("k") == "rec12" and r.get("use_cid"))
     chk.sample({"k": "rec12", "suite": r0["suite"], "epoch": r0["epoch"], "seq": r0["seq"], "cid": r0["cid"], "aad": r0["aad"],
                 "nonce": r0["nonce"]})
+    return gen
+
+
+def keyschedule(chk, wd, gen):
+    """in-package: internal/handshake key-schedule functions against the TLC derivation graph"""
+    binary = vlib.build("handshake")
+    rows = gen["hkdf"].printed
+    rc, txt, _, res = run_harness(chk, binary, "TestVerifC10KeySchedule", rows, wd, "ks",
+                                  env={"VERIF_ROUNDS": 40 if chk.quick else 400})
+    if rc != 0 or not res or not res[-1].get("summary"):
+        raise vlib.Inconclusive("C10 key-schedule harness failed: " + txt[-2000:])
+    summ = res[-1]
+    if summ.get("layout"):
+        raise vlib.Inconclusive("oracle restatement disagrees with TLC: %s" % summ["layout"][:2])
+    if summ["evaluations"] < 100:
+        raise vlib.Inconclusive("vacuous key-schedule run: %s" % summ)
+    for w in summ.get("viol") or []:
+        chk.violation({"kind": "keyschedule13", "suite_family": "TLS13", "cid": False, "what": w})
+    chk.evaluated("ks13", summ["evaluations"])
+    chk.parts["keyschedule13"] = {"evaluations": summ["evaluations"]}
+
+
+def live(chk, wd, binary, gen):
+    """full handshakes for every suite x layout, decoded passively by the oracle"""
+    scens = suites.record_scenarios()
+    if chk.quick:
+        scens = [(n, sc) for n, sc in scens if not n.endswith("/cid4/pad0")]
+    rows = gen["suite12"].printed + gen["suite13"].printed + [{"name": n, "scen": sc} for n, sc in scens]
+    rc, txt, inflight, res = run_harness(chk, binary, "TestVerifC10Live", rows, wd, "live", timeout=1200)
+    if rc != 0 or not res or not res[-1].get("summary"):
+        raise vlib.Inconclusive("C10 live harness failed (in flight %s): %s" % (inflight, txt[-2500:]))
+    summ = res[-1]
+    if summ["cases"] != len(scens) or summ["lab"] > max(2, len(scens) // 20) or summ["decrypted"] < 8 * (len(scens) - summ["lab"]):
+        raise vlib.Inconclusive("C10 live run incomplete: %s %s" % (summ, [r.get("lab") for r in res[:-1] if r.get("lab")][:2]))
+    for r in res[:-1]:
+        for w in (r.get("viol") or [])[:3]:
+            kind = "exporter13" if w.startswith("EXPORTER13") else "live"
+            chk.violation({"kind": kind, "suite_family": r.get("family"), "cid": bool(r.get("cid")), "ver": r.get("ver"),
+                           "config": r.get("name"), "what": w})
+        for nt in r.get("notes") or []:
+            chk.note("%s: %s" % (r.get("name"), nt))
+        if r.get("lab"):
+            chk.note("lab: %s: %s" % (r.get("name"), r["lab"]))
+    chk.traces(summ["cases"] - summ["lab"])
+    chk.evaluated("live", summ["decrypted"])
+    for n, _ in scens:
+        chk.distinct.add("live/" + n)
+    chk.parts["live"] = {"handshakes": summ["cases"], "records_captured": summ["records"],
+                         "protected_records_decrypted_by_oracle": summ["decrypted"], "lab_failures": summ["lab"]}
 
 
 def run(chk):
@@ -111,7 +160,9 @@ def run(chk):
         for mode, broken in BROKEN:
             vlib.tlc_expect_violation(GEN, "%s.%s.broken.%s.cfg" % (GEN, mode, broken), "Consistent", timeout=300, workers=1)
         binary = vlib.build("root")
-        vectors(chk, wd, binary)
+        gen = vectors(chk, wd, binary)
+        keyschedule(chk, wd, gen)
+        live(chk, wd, binary, gen)
         chk.level = "other"
         chk.coverage["explanation"] = (
             "layout oracle: the TLA+ modules Codec/CodecGen state the RFC byte layouts independently of the library; TLC "
